@@ -18,7 +18,7 @@ PLAN  = {"quick":    {"shards": 16, "parallel": 8, "cases": 800,   "timeout": 15
          "thorough": {"shards": 16, "parallel": 8, "cases": 24000, "timeout": 7000, "budget_s": 1500, "mp_every": 10}}
 REQUIRED = ["oracle.triple==solo", "oracle.triple==solo.shared-learner", "oracle.permuted==solo", "oracle.failed-triple-has-no-rows",
             "oracle.failure-logged", "oracle.others-complete-despite-failure", "inject.predict", "inject.learn", "inject.read",
-            "inject.evaluator", "inject.params", "oracle.multiproc.triple==solo"]
+            "inject.evaluator", "inject.params", "oracle.multiproc.triple==solo", "oracle.solo-in-fresh-process"]
 ASSUMPTIONS = ["a learner listed in exactly one triple is trained in place by design; only rows are compared, never post-run learner state",
                "only picklable deterministic components; timing columns excluded"]
 
@@ -83,11 +83,21 @@ def check_case(case, ctx=None, workdir=None, use_mp=False):
     if fk.endswith("params"): note("inject.params")
     feat = f"fault={fk}/shared={pattern or 'none'}"
     solo, failed = {}, set()
+    fresh = bool(use_mp and workdir)       # sampled cases: every solo reference comes from its own fresh interpreter ("pristine")
     for i in range(n):
         slog = []
-        r, _ = X.run_inproc(spec, (1, 0, 0), faults=faults, only_triple=i, log_sink=slog)
+        if fresh:
+            out = X.run_subprocess(spec, [1, 0, 0], workdir, faults=faults, only_triple=i)
+            if out["status"] != "ok":
+                if ctx is not None: ctx.note_inconclusive(f"solo-subprocess-{out['status']}: {str(out)[:200]}")
+                return viol
+            srows, slog = out["canon"]["interactions"], out["logs"]
+            note("oracle.solo-in-fresh-process")
+        else:
+            r, _ = X.run_inproc(spec, (1, 0, 0), faults=faults, only_triple=i, log_sink=slog)
+            srows = X.canon_result(r)["interactions"]
         # in a solo experiment the single triple has ids (0,0,0)
-        solo[i] = sorted(({k: v for k, v in row.items() if not k.endswith("_id")} for row in X.canon_result(r)["interactions"]), key=lambda r_: r_.get("index", 0))
+        solo[i] = sorted(({k: v for k, v in row.items() if not k.endswith("_id")} for row in srows), key=lambda r_: r_.get("index", 0))
         raised_in_eval = any("InjectedFailure" in l or any(m in l for m in ("learner-predict", "learner-learn", "environment-read", "evaluator-evaluate")) for l in slog) \
                          and fk in ("predict", "learn", "read", "evaluator")
         if raised_in_eval:
